@@ -615,22 +615,23 @@ func c07WindowShape(r *core.Report) {
 		return true
 	})
 	facts := g.FactsAt(an)
-	// (a) limit test dominates the append
-	okLimit := false
-	for _, fc := range facts {
-		if fc.Tag == nil && core.Mentions(info, fc.Expr, limit) && strings.Contains(core.ExprStr(fc.Expr), "Count()") {
-			okLimit = true
+	// (a) every way to the append passes an edge on which a test involving the limit failed (`count >= limit` not yet,
+	// or `limit > 0` false: no limit) - whether the test is one condition, nested ifs or a predicate closure
+	_ = facts
+	limitEdges := map[*core.GNode]bool{}
+	for _, d := range g.Nodes {
+		if d.Kind != core.KEdge || d.Ast == nil || d.Tag != nil {
+			continue
 		}
-	}
-	// a disjunctive guard `limit > 0 && count >= limit` is false on the append path: decompose yields nothing; accept the
-	// dominating false edge of a condition mentioning both
-	if !okLimit {
-		for _, d := range g.Dominators(an) {
-			if d.Kind == core.KEdge && !d.Truth && d.Ast != nil && core.Mentions(info, d.Ast, limit) && strings.Contains(core.ExprStr(d.Ast), ">=") {
-				okLimit = true
+		if cond, isE := d.Ast.(ast.Expr); isE {
+			for _, t := range failedTests(cond, d.Truth) {
+				if core.Mentions(info, t, limit) {
+					limitEdges[d] = true
+				}
 			}
 		}
 	}
+	okLimit := len(limitEdges) > 0 && g.PathAvoiding(g.Entry, func(x *core.GNode) bool { return x == an }, func(x *core.GNode) bool { return limitEdges[x] }) == nil
 	r.Check(okLimit, rule, f.Key+"#limit-before-append", pos(r, an.Ast), "the limit test dominates the append", "no limit test dominates the append: more than `limit` entries can be returned")
 	// (b) reachedBefore must be known true at the append
 	okReached := false
@@ -787,25 +788,55 @@ func c07LimitCountsWholeResult(r *core.Report) {
 				return
 			}
 			found, bad := false, ""
+			// the edge on which `limit > 0` alone failed: there is no limit to enforce
+			noLimit := func(d *core.GNode) bool {
+				if d.Kind != core.KEdge || d.Ast == nil || d.Tag != nil {
+					return false
+				}
+				cond, isE := d.Ast.(ast.Expr)
+				if !isE {
+					return false
+				}
+				for _, t := range failedTests(cond, d.Truth) {
+					be, ok := core.Unparen(t).(*ast.BinaryExpr)
+					if !ok {
+						continue
+					}
+					x, y, op := be.X, be.Y, be.Op
+					if core.ObjOf(info, y) == limit {
+						x, y = y, x
+						op = map[token.Token]token.Token{token.LSS: token.GTR, token.GTR: token.LSS, token.LEQ: token.GEQ, token.GEQ: token.LEQ}[op]
+					}
+					if core.ObjOf(info, x) != limit {
+						continue
+					}
+					if v, isC := core.ConstInt(info, y); isC && ((op == token.GTR && v == 0) || (op == token.GEQ && v == 1) || (op == token.NEQ && v == 0)) {
+						return true
+					}
+				}
+				return false
+			}
+			passed := map[*core.GNode]bool{}
 			for _, d := range g.Nodes {
 				if isL, isW, _ := classify(d); isL && isW {
 					wholeEdge[d] = true
+					passed[d] = true
+				}
+				if noLimit(d) {
+					passed[d] = true
 				}
 			}
 			for _, d := range g.Dominators(an) {
 				isL, isW, what := classify(d)
-				if !isL {
-					continue
-				}
-				if isW {
-					found = true
-				} else {
+				if isL && !isW {
 					bad = what
 				}
 			}
-			// every way from one append to the next passes a whole-result limit test
+			// every way to the append passes a whole-result limit test that failed (or the test that there is no limit)
+			found = len(wholeEdge) > 0 && g.PathAvoiding(g.Entry, func(x *core.GNode) bool { return x == an }, func(x *core.GNode) bool { return passed[x] }) == nil
+			// ... and so does every way from one append to the next
 			if found && bad == "" {
-				reach := g.Reach(an, func(n *core.GNode) bool { return wholeEdge[n] })
+				reach := g.Reach(an, func(n *core.GNode) bool { return passed[n] })
 				if reach[an] {
 					found, bad = false, "nothing on some way from one append to the next"
 				}
@@ -865,11 +896,11 @@ func sumsLenOverReceiver(f *core.Func) bool {
 		}
 		val := core.ObjOf(info, rs.Value)
 		for _, st := range rs.Body.List {
-			as, isA := st.(*ast.AssignStmt)
-			if !isA || as.Tok != token.ADD_ASSIGN || len(as.Rhs) != 1 {
+			_, addend, isAdd := addStep(info, st)
+			if !isAdd || addend == nil {
 				continue
 			}
-			if c, isC := core.Unparen(as.Rhs[0]).(*ast.CallExpr); isC && core.BuiltinName(info, c) == "len" && len(c.Args) == 1 && core.ObjOf(info, c.Args[0]) == val {
+			if c, isC := core.Unparen(addend).(*ast.CallExpr); isC && core.BuiltinName(info, c) == "len" && len(c.Args) == 1 && core.ObjOf(info, c.Args[0]) == val {
 				ok = true
 			}
 		}
